@@ -51,6 +51,14 @@ def gen_case(r):
         tcond = Leaf("value", "dtype", r.choice(["equal_to", "not_equal_to"]), kwargs={"value": tuple})
         parts = list(p.parts) + [Part(r.choice(["map", "list", "mol"]), value=tcond)]
         p = PathT(parts)
+    if route == "api" and r.pct() < 6:
+        # a condition on the data type whose argument is the NAME of a type (a string) instead of the type: it selects
+        # nothing; written as the bare name it would be read back as the type - refuse, or write it faithfully
+        nm = r.choice(["int", "str", "list", "dict", "bool", "float", "INT", "abc"])
+        tc = r.choice([Leaf("value", "dtype", "equal_to", kwargs={"value": nm}),
+                       Leaf("value", "dtype", "in_", kwargs={"value": [nm, str] if r.coin() else [nm]}),
+                       Leaf("value", None, "is_instance", args=(nm,) if r.coin() else (int, nm))])
+        p = PathT(list(p.parts) + [Part(r.choice(["map", "list", "mol"]), value=tc)])
     if r.pct() < 8:
         # a variable-argument callable given no argument at all (its serialised form is an empty list); the lazily
         # evaluated ones (items_contain, keys_contain_any_of ...) are left out: on a non-mapping their meaning with
@@ -60,7 +68,7 @@ def gen_case(r):
         p = PathT(parts)
     spec = None
     if route == "spec":
-        spec = [SP.part_spec(x, SP.Spelling(r)) for x in p.parts]
+        spec = SP.part_specs(p.parts, SP.Spelling(r))
     return (route, p), [d, d2], spec
 
 
